@@ -126,6 +126,15 @@ def W.align (w : W) : W := { w with pos := alignUp w.pos }
 /-- `pos += n` (nothing is stored: the bytes keep what `memset` put there) -/
 def W.skip (w : W) (n : Nat) : W := { w with pos := u32 (w.pos + n) }
 
+/-- the body of a blob: `u = b.data; if(u) { while(i--) buffer[pos++] = *u++; } else pos += i;`
+    (`none`: the copy loop reads past the data block, or `i` is negative) -/
+def W.blobData (w : W) (len : UInt32) (data : Option Bytes) : Option W :=
+  match data with
+  | some d =>
+    if len.toNat < 2147483648 ∧ len.toNat ≤ d.length then some (w.puts (d.take len.toNat))
+    else none
+  | none => some (w.skip len.toNat)
+
 /-- The `while(toparse)` loop of `rtosc_amessage`. -/
 def writeLoop : Nat → Bytes → List CArg → W → Option W
   | 0, _, _, w => some w
@@ -150,14 +159,7 @@ def writeLoop : Nat → Bytes → List CArg → W → Option W
     else if t = 98 then                            -- b
       match args with
       | .blob len data :: as =>
-        let w := w.puts (put32 len)
-        let w? : Option W :=
-          match data with
-          | some d =>                              -- while(i--) buffer[pos++] = *u++;
-            if len.toNat < 2147483648 ∧ len.toNat ≤ d.length then some (w.puts (d.take len.toNat))
-            else none                              -- reads past the data block
-          | none => some (w.skip len.toNat)        -- pos += i
-        match w? with
+        match (w.puts (put32 len)).blobData len data with
         | none => none
         | some w =>
           let w := if w.pos % 4 ≠ 0 then w.align else w
@@ -275,6 +277,22 @@ def narrowF64 (b : UInt64) : UInt32 :=
     let bits := base + q
     if bits ≥ 0x7f800000 then UInt32.ofNat (sign + 0x7f800000) else UInt32.ofNat (sign + bits)
 
+/-- IEEE-754 binary32 → binary64 (exact), the default argument promotion of a `float` at a
+    call site of `rtosc_message`; on bit patterns, NaN payload kept in the top bits. -/
+def widenF32 (b : UInt32) : UInt64 :=
+  let n := b.toNat
+  let s := n / 2 ^ 31
+  let e := n / 2 ^ 23 % 256
+  let m := n % 2 ^ 23
+  let sign := s * 2 ^ 63
+  if e = 255 then UInt64.ofNat (sign + 2047 * 2 ^ 52 + m * 2 ^ 29)
+  else if e = 0 then
+    if m = 0 then UInt64.ofNat sign
+    else
+      let k := Nat.log2 m                                   -- m = 2^k + rest, value = m * 2^-149
+      UInt64.ofNat (sign + (k + 874) * 2 ^ 52 + (m - 2 ^ k) * 2 ^ (52 - k))
+  else UInt64.ofNat (sign + (e + 896) * 2 ^ 52 + m * 2 ^ 29)
+
 /-! ### `rtosc_avmessage` (arg-val.c:5), for lists without ranges and arrays -/
 
 /-- `rtosc_arg_val_t`: a type character and the union (only looked at for payload types). -/
@@ -306,7 +324,7 @@ def avmessage (buffer : Option Bytes) (addr : Bytes) (avs : List ArgVal) : Optio
   | none => none
   | some (tags, vals) => amessage buffer addr tags vals
 
-/-! ### from abstract arguments to what a caller passes -/
+/-! ### between abstract arguments and what a caller passes -/
 
 def Arg.toC : Arg → CArg
   | .w32 v => .w32 v
@@ -314,5 +332,50 @@ def Arg.toC : Arg → CArg
   | .midi a b c d => .midi a b c d
   | .str s => .str s
   | .blob d => .blob (UInt32.ofNat d.length) (some d)
+
+/-- The abstract argument a caller-filled union stands for.  A blob with the NULL data
+    pointer stands for `len` zero bytes (the writer skips them in the zeroed buffer); a
+    data block may be longer than `len` (only `len` bytes are read), not shorter. -/
+def CArg.abs : CArg → Option Arg
+  | .w32 v => some (.w32 v)
+  | .w64 v => some (.w64 v)
+  | .midi a b c d => some (.midi a b c d)
+  | .str s => some (.str s)
+  | .blob len none => some (.blob (zeros len.toNat))
+  | .blob len (some blk) => if len.toNat ≤ blk.length then some (.blob (blk.take len.toNat)) else none
+
+/-- `cargs` stand for `args`, element by element -/
+def Denote : List CArg → List Arg → Prop
+  | [], [] => True
+  | c :: cs, a :: as => c.abs = some a ∧ Denote cs as
+  | _, _ => False
+
+/-- The promoted values a `rtosc_message(…)` call site passes for the type string `tags`
+    and the values `args`; `widen` is the float → double promotion on bit patterns. -/
+def promote (widen : UInt32 → UInt64) : Bytes → List CArg → List VaArg
+  | [], _ => []
+  | t :: ts, args =>
+    if !hasReserved t then promote widen ts args
+    else
+      match args with
+      | [] => []
+      | a :: as =>
+        (match a with
+          | .w32 v => if t = 102 then [VaArg.dbl (widen v)] else [VaArg.int v]
+          | .w64 v => if t = 100 then [VaArg.dbl v] else [VaArg.i64 v]
+          | .midi a b c d => [VaArg.midi a b c d]
+          | .str s => [VaArg.cstr s]
+          | .blob len data => [VaArg.int len, VaArg.ptr data]) ++ promote widen ts as
+
+/-- The arg-val list a caller of `rtosc_avmessage` builds for `tags` and `args`
+    (the union of a payload-free element is not looked at). -/
+def ArgVal.listOf : Bytes → List CArg → List ArgVal
+  | [], _ => []
+  | t :: ts, args =>
+    if hasReserved t then
+      match args with
+      | [] => ⟨t, none⟩ :: ArgVal.listOf ts []
+      | a :: as => ⟨t, some a⟩ :: ArgVal.listOf ts as
+    else ⟨t, none⟩ :: ArgVal.listOf ts args
 
 end Rtosc.Osc
